@@ -4,6 +4,7 @@ where `treeOf` is the canonical derivation the emitter follows (Model/C07Tree.le
 tables regenerated from /repo (`names_ok`, kernel-checked).
 -/
 import Dawgs.Proofs.C07RoundExpr4
+import Dawgs.Proofs.C07Yield2
 import Dawgs.Spec.C07
 namespace Dawgs.C07.Props
 open Dawgs.C07 Dawgs.C07.Inst Dawgs.Grammar Dawgs.C08
@@ -19,6 +20,18 @@ visitor model from its canonical tree, for any fuel ≥ 2·size + 2 -/
 theorem emit_build_fixed_expr (f : Nat) (e : Expr) (hw : wfExpr f e = true) (g : Nat)
     (hg : 2 * size (treeOfExpr N f e) + 2 ≤ g) : bExpr N g (treeOfExpr N f e) = .ok e :=
   treeOfExpr_ok names_ok f e g hw hg
+
+/-- the canonical tree carries exactly the tokens format.go writes for the model, in the same ORDER -/
+theorem emit_yield_expr (f : Nat) (e : Expr) (hw : wfExpr f e = true) (G : Nat) (hG : size (treeOfExpr N f e) ≤ G) :
+    eExpr G e = yieldT (treeOfExpr N f e) :=
+  treeOfExpr_yield N f e G hw hG
+
+/-- `faithful_partial` on the expression layer: a tree that IS the canonical derivation of a well-formed expression model is
+rebuilt to that model, and its terminal yield equals the emitted token sequence (ordered) -/
+theorem faithful_partial_expr (t : Tree) (f : Nat) (e : Expr) (ht : t = treeOfExpr N f e) (hw : wfExpr f e = true) :
+    bExpr N (2 * size t + 2) t = .ok e ∧ yieldT t = eExpr (size t) e := by
+  subst ht
+  exact ⟨emit_build_fixed_expr f e hw _ (Nat.le_refl _), (emit_yield_expr f e hw _ (Nat.le_refl _)).symm⟩
 
 /-- non-vacuity: `n.a = 1 AND NOT (m.b IN [1, 2] OR count(*) > 0)` is well-formed at depth 3 -/
 example : wfExpr 3 (.conj [.cmp (.prop (.var "n") "a") [("=", .lit (.int 1))],
